@@ -99,12 +99,26 @@ def Noti.same (a b : Noti) : Bool :=
 
 def metaRoot : String := "meta"
 
-/-- `joinPrefixAndPath(n.Prefix, suffix)` (target dropped; origin first when set) -/
+/-- `joinPrefixAndPath(n.Prefix, suffix)`: `ToStrings(prefix, true) ++ ToStrings(suffix, false)`
+without its first element (`p[1:]`, the target).  `none` = the slice expression panics
+(nothing to drop: no target, no origin, no element). -/
+def joinKey? (n : Noti) (suffix : Path) : Option Path :=
+  match (if n.target = "" then [] else [n.target]) ++ (if n.origin = "" then [] else [n.origin]) ++
+      n.pfx ++ suffix with
+  | [] => none
+  | _ :: r => some r
+
+/-- the joined index when the prefix names a target (the only way through `Cache.GnmiUpdate`) -/
 def joinKey (n : Noti) (suffix : Path) : Path :=
   (if n.origin = "" then [] else [n.origin]) ++ n.pfx ++ suffix
 
+theorem joinKey?_eq (n : Noti) (suffix : Path) (h : n.target ≠ "") :
+    joinKey? n suffix = some (joinKey n suffix) := by
+  simp [joinKey?, joinKey, h]
+
 /-- index path of the leaf an update of `n` is stored under -/
 def updKey (n : Noti) (u : Upd) : Path := joinKey n (if n.atomic then [] else u.path)
+def updKey? (n : Noti) (u : Upd) : Option Path := joinKey? n (if n.atomic then [] else u.path)
 
 /-! ## Feed events -/
 
@@ -117,11 +131,13 @@ deriving DecidableEq, Repr, Inhabited
 def subIndex (target origin : String) (p : Path) : Path :=
   target :: ((if origin = "" then [] else [origin]) ++ p)
 
-/-- `toDeleteNotification(d, ts)` for a removed leaf holding `d` -/
-def toDeleteEvent (d : Noti) (ts : Int) : Event :=
-  let u := d.upd.headD {}
-  let origin := if d.origin = "" && u.origin != "" then u.origin else d.origin
-  .del d.target origin (d.pfx ++ (if d.atomic then [] else u.path)) ts
+/-- `toDeleteNotification(d, ts)` for a removed leaf holding `d`; `none` = `d.Update[0]` panics -/
+def toDeleteEvent? (d : Noti) (ts : Int) : Option Event :=
+  match d.upd with
+  | [] => none
+  | u :: _ =>
+    let origin := if d.origin = "" && u.origin != "" then u.origin else d.origin
+    some (.del d.target origin (d.pfx ++ (if d.atomic then [] else u.path)) ts)
 
 /-! ## Metadata -/
 
@@ -209,8 +225,10 @@ deriving Repr, Inhabited
 
 inductive Res where
   | ok | stale | future | err
+  | panic          -- a Go run-time panic (index out of range, nil dereference, failed assertion)
 deriving DecidableEq, Repr, Inhabited
 
+/-- a non-nil `error` was returned (or the call did not return at all) -/
 def Res.isErr : Res → Bool
   | .ok => false
   | _ => true
@@ -264,14 +282,18 @@ def verdict (cfg : Cfg) (now : Int) (latest : Option Int) (old n : Noti) : Verdi
       else .future
   else .accept
 
-/-- `Target.gnmiUpdate(n)`: `n` carries the update to apply as its first update.
+/-- `Target.gnmiUpdate(n)`: `n` carries the update to apply as its first update
+(`n.Update[0]`: a notification without updates makes the index expression panic).
 Returns the result, the new target and the leaf handed to the feed (if any). -/
 def Target.gnmiUpdate1 (cfg : Cfg) (now : Int) (t : Target) (n : Noti) : Res × Target × Option Noti :=
-  let u := n.upd.headD {}
-  let path := updKey n u
-  match path with
-  | [] => (.err, t, none)                                            -- empty path
-  | h :: rest =>
+  match n.upd with
+  | [] => (.panic, t, none)                                          -- n.Update[0]
+  | u :: _ =>
+  match updKey? n u with
+  | none => (.panic, t, none)                                        -- p[1:] on an empty slice
+  | some [] => (.err, t, none)                                       -- empty path
+  | some (h :: rest) =>
+    let path := h :: rest
     let pre : Option (Target × Bool) :=
       if h = metaRoot then
         match rest with
@@ -288,9 +310,14 @@ def Target.gnmiUpdate1 (cfg : Cfg) (now : Int) (t : Target) (n : Noti) : Res × 
         | .future => (.future, { t with md := { t.md with future := t.md.future + 1 } }, none)
         | .accept =>
           let t := { t with tree := setLeaf t.tree path n }
-          if !n.atomic && !old.atomic && valueEqual (old.upd.headD {}).val u.val && cfg.eventDriven then
-            (.ok, { t with md := { t.md with suppressed := t.md.suppressed + 1 } }, none)
-          else (.ok, t, some n)
+          if n.atomic || old.atomic then (.ok, t, some n)
+          else
+            match old.upd with
+            | [] => (.panic, t, none)                                -- old.Update[0]
+            | ou :: _ =>
+              if valueEqual ou.val u.val && cfg.eventDriven then
+                (.ok, { t with md := { t.md with suppressed := t.md.suppressed + 1 } }, none)
+              else (.ok, t, some n)
       | none =>
         match PMap.add t.tree path n with
         | none => (.err, t, none)                                    -- collision with a leaf / branch
@@ -306,21 +333,34 @@ def isMetaKey (p : Path) : Bool :=
   | h :: _ => h == metaRoot
   | [] => false
 
-/-- `Target.gnmiRemove(n)`: `n` carries the delete to apply as its first delete. -/
-def Target.gnmiRemove1 (t : Target) (n : Noti) : Target × List Event :=
-  let d := n.del.headD {}
-  let path := joinKey n d.path
-  let t := match path with
-    | h :: name :: _ => if h = metaRoot then { t with md := t.md.resetEntry name } else t
-    | _ => t
-  let r := PMap.delete (fun (v : Noti) => decide (v.ts < n.ts)) t.tree path
-  match r.2 with
-  | [] => (t, [])
-  | removed =>
-    let cnt : Int := ((removed.filter (fun kv => !isMetaKey kv.1)).length : Nat)
-    ({ t with tree := r.1,
-              md := { t.md with leaves := t.md.leaves - cnt, deleted := t.md.deleted + cnt } },
-     removed.map (fun kv => toDeleteEvent kv.2 n.ts))
+def allSome {α : Type} : List (Option α) → Option (List α)
+  | [] => some []
+  | none :: _ => none
+  | some a :: r => (allSome r).map (a :: ·)
+
+/-- `Target.gnmiRemove(n)`: `n` carries the delete to apply as its first delete
+(`n.Delete[0]`).  The last component is `true` when a Go panic is reached. -/
+def Target.gnmiRemove1 (t : Target) (n : Noti) : Target × List Event × Bool :=
+  match n.del with
+  | [] => (t, [], true)                                              -- n.Delete[0]
+  | d :: _ =>
+  match joinKey? n d.path with
+  | none => (t, [], true)                                            -- p[1:] on an empty slice
+  | some path =>
+    let t := match path with
+      | h :: name :: _ => if h = metaRoot then { t with md := t.md.resetEntry name } else t
+      | _ => t
+    let r := PMap.delete (fun (v : Noti) => decide (v.ts < n.ts)) t.tree path
+    match r.2 with
+    | [] => (t, [], false)
+    | removed =>
+      match allSome (removed.map (fun kv => toDeleteEvent? kv.2 n.ts)) with
+      | none => ({ t with tree := r.1 }, [], true)                  -- d.Update[0] in the callback
+      | some evs =>
+        let cnt : Int := ((removed.filter (fun kv => !isMetaKey kv.1)).length : Nat)
+        ({ t with tree := r.1,
+                  md := { t.md with leaves := t.md.leaves - cnt, deleted := t.md.deleted + cnt } },
+         evs, false)
 
 /-- `checkTimestamp` -/
 def Target.checkTimestamp (t : Target) (ts : Int) : Target :=
@@ -328,42 +368,56 @@ def Target.checkTimestamp (t : Target) (ts : Int) : Target :=
   | none => { t with latest := some ts }
   | some l => if ts > l then { t with latest := some ts } else t
 
-/-- does the deferred `checkTimestamp` apply to `n` (first update not under `meta`)? -/
-def tracksTimestamp (n : Noti) : Bool :=
+/-- does the deferred `checkTimestamp` apply to `n` (first update not under `meta`)?
+`none` = evaluating the condition panics (`p[1:]`). -/
+def tracksTimestamp? (n : Noti) : Option Bool :=
   match n.upd with
   | u :: _ =>
-    match updKey n u with
-    | h :: _ => h != metaRoot
-    | [] => false
-  | [] => false
+    match updKey? n u with
+    | none => none
+    | some (h :: _) => some (h != metaRoot)
+    | some [] => some false
+  | [] => some false
 
-/-- the loop over the updates of a multi-update notification: accumulates
-(any error?, any accepted?, target, event groups in order) -/
-def multiUpdates (cfg : Cfg) (now : Int) (hdr : Noti) :
-    List Upd → (Bool × Bool × Target × List (List Event)) → (Bool × Bool × Target × List (List Event))
+structure MultiAcc where
+  anyErr : Bool := false
+  anyOk : Bool := false
+  panicked : Bool := false
+  t : Target
+  evs : List (List Event) := []
+
+/-- the loop over the updates of a multi-update notification -/
+def multiUpdates (cfg : Cfg) (now : Int) (hdr : Noti) : List Upd → MultiAcc → MultiAcc
   | [], acc => acc
-  | u :: us, (anyErr, anyOk, t, evs) =>
-    let r := Target.gnmiUpdate1 cfg now t { hdr with upd := [u], del := [] }
-    if r.1.isErr then multiUpdates cfg now hdr us (true, anyOk, r.2.1, evs)
+  | u :: us, acc =>
+    if acc.panicked then acc else
+    let r := Target.gnmiUpdate1 cfg now acc.t { hdr with upd := [u], del := [] }
+    if r.1 = .panic then { acc with panicked := true, t := r.2.1 }
+    else if r.1.isErr then multiUpdates cfg now hdr us { acc with anyErr := true, t := r.2.1 }
     else
       match r.2.2 with
       | some nd =>
         let t := { r.2.1 with md := { r.2.1.md with updated := r.2.1.md.updated + 1 } }
-        multiUpdates cfg now hdr us (anyErr, true, t, evs ++ [[Event.upd nd]])
-      | none => multiUpdates cfg now hdr us (anyErr, true, r.2.1, evs)
+        multiUpdates cfg now hdr us { acc with anyOk := true, t := t, evs := acc.evs ++ [[Event.upd nd]] }
+      | none => multiUpdates cfg now hdr us { acc with anyOk := true, t := r.2.1 }
 
-def multiDeletes (hdr : Noti) : List Del → (Target × List (List Event)) → (Target × List (List Event))
+def multiDeletes (hdr : Noti) : List Del → MultiAcc → MultiAcc
   | [], acc => acc
-  | d :: ds, (t, evs) =>
-    let t := { t with md := { t.md with updated := t.md.updated + 1 } }
+  | d :: ds, acc =>
+    if acc.panicked then acc else
+    let t := { acc.t with md := { acc.t.md with updated := acc.t.md.updated + 1 } }
     let r := Target.gnmiRemove1 t { hdr with upd := [], del := [d] }
-    multiDeletes hdr ds (r.1, if r.2.isEmpty then evs else evs ++ [r.2])
+    if r.2.2 then { acc with panicked := true, t := r.1 }
+    else multiDeletes hdr ds { acc with t := r.1, evs := if r.2.1.isEmpty then acc.evs else acc.evs ++ [r.2.1] }
 
 /-- `Target.GnmiUpdate(n)`: result, new target, feed events in callback order (grouped:
 the events of one delete come out of a map iteration, their mutual order is unspecified). -/
 def Target.gnmiUpdate (cfg : Cfg) (now : Int) (t : Target) (n : Noti) : Res × Target × List (List Event) :=
+  match tracksTimestamp? n with
+  | none => (.panic, t, [])
+  | some tracks =>
   let finish (accepted : Bool) (t : Target) : Target :=
-    if accepted && tracksTimestamp n then t.checkTimestamp n.ts else t
+    if accepted && tracks then t.checkTimestamp n.ts else t
   if n.atomic then
     if !n.del.isEmpty then (.err, t, [])
     else if n.upd.isEmpty then (.ok, { t with md := { t.md with empty := t.md.empty + 1 } }, [])
@@ -378,9 +432,10 @@ def Target.gnmiUpdate (cfg : Cfg) (now : Int) (t : Target) (n : Noti) : Res × T
         | none => (.ok, finish true r.2.1, [])
   else if n.upd.length + n.del.length > 1 then
     let hdr := { n with upd := [], del := [] }
-    let a := multiUpdates cfg now hdr n.upd (false, false, t, [])
-    let b := multiDeletes hdr n.del (a.2.2.1, a.2.2.2)
-    ((if a.1 then .err else .ok), finish a.2.1 b.1, b.2)
+    let a := multiUpdates cfg now hdr n.upd { t := t }
+    let b := multiDeletes hdr n.del a
+    if b.panicked then (.panic, b.t, b.evs)
+    else ((if b.anyErr then .err else .ok), finish b.anyOk b.t, b.evs)
   else if n.upd.length = 1 then
     let r := Target.gnmiUpdate1 cfg now t n
     if r.1.isErr then (r.1, r.2.1, [])
@@ -393,7 +448,7 @@ def Target.gnmiUpdate (cfg : Cfg) (now : Int) (t : Target) (n : Noti) : Res × T
   else if n.del.length = 1 then
     let t := { t with md := { t.md with updated := t.md.updated + 1 } }
     let r := Target.gnmiRemove1 t n
-    (.ok, r.1, if r.2.isEmpty then [] else [r.2])
+    if r.2.2 then (.panic, r.1, []) else (.ok, r.1, if r.2.1.isEmpty then [] else [r.2.1])
   else (.ok, { t with md := { t.md with empty := t.md.empty + 1 } }, [])
 
 /-! ### internally generated notifications (`metaNoti*`, `deleteNoti`) -/
@@ -437,7 +492,8 @@ def genMetaOne (cfg : Cfg) (enc : String → String) (now : Int) (emit : Bool)
   let t := acc.1
   if cfg.excluded.contains name then acc
   else
-    let stored : Option Val := (lookup t.tree [metaRoot, name]).map (fun n => (n.upd.headD {}).val)
+    -- `metaLeafValue`: nil when there is no leaf or it holds no update
+    let stored : Option Val := (lookup t.tree [metaRoot, name]).bind (fun n => n.upd.head?.map (·.val))
     let cur := match stored with
       | some sv => isCur sv
       | none => false
